@@ -1371,3 +1371,63 @@ func (p *Prog) flowsFromCallResult(v ssa.Value, target *ssa.Call, idx, depth int
 	}
 	return false
 }
+
+// backSlice: the values v is computed from, within its function (operands transitively; a call's result depends on all of
+// its arguments and its receiver; a local cell depends on everything stored into it or into a part of it, and on the
+// arguments of calls that receive its address).
+func backSlice(v ssa.Value) map[ssa.Value]bool {
+	seen := map[ssa.Value]bool{}
+	var walk func(v ssa.Value, d int)
+	walk = func(v ssa.Value, d int) {
+		if v == nil || seen[v] || d > 60 {
+			return
+		}
+		seen[v] = true
+		switch x := v.(type) {
+		case *ssa.Alloc:
+			var cell func(a ssa.Value, dd int)
+			cell = func(a ssa.Value, dd int) {
+				refs := a.Referrers()
+				if refs == nil || dd > 4 {
+					return
+				}
+				for _, r := range *refs {
+					switch y := r.(type) {
+					case *ssa.Store:
+						if y.Addr == a {
+							walk(y.Val, d+1)
+						}
+					case *ssa.Slice:
+						cell(y, dd+1)
+					case *ssa.IndexAddr:
+						cell(y, dd+1)
+					case *ssa.FieldAddr:
+						cell(y, dd+1)
+					case ssa.CallInstruction:
+						for _, arg := range y.Common().Args {
+							if arg != a {
+								walk(arg, d+1)
+							}
+						}
+					}
+				}
+			}
+			cell(x, 0)
+		case *ssa.Call:
+			for _, a := range x.Call.Args {
+				walk(a, d+1)
+			}
+			walk(x.Call.Value, d+1)
+		default:
+			if in, ok := v.(ssa.Instruction); ok {
+				for _, op := range in.Operands(nil) {
+					if op != nil && *op != nil {
+						walk(*op, d+1)
+					}
+				}
+			}
+		}
+	}
+	walk(v, 0)
+	return seen
+}
